@@ -57,4 +57,27 @@ theorem gen_patchset_ctor3_accepts_iff (n0 n1 n2 : String) (v0 v1 v2 : V) :
   · rintro ⟨a, b, c, d, e, f⟩
     simp [a, b, c, d, e, f]
 
+/-- what the model predicts for `verify` and `apply` on a patch set listing sha256 (recorded `r0`) and md5 (recorded `r1`), the given
+workspace hashing to `c0` / `c1`; rendered like the generated outcome (the patch application itself is a parameter of the model) -/
+def modelVerify2 (c0 c1 r0 r1 : String) : String :=
+  let digest : String → Unit → String := fun alg _ => if alg = "sha256" then c0 else c1
+  let digests := [("sha256", r0), ("md5", r1)]
+  let d : Dict Nat := [(.name "p", 0), (.values [1], 0)]
+  let r1' := match verify digest digests () with | .ok () => "ok" | .error _ => "verification"
+  let r2' := match PatchSet.apply digest digests d (fun _ w => w) () (.name "p") with | .ok _ => "ok" | .error .verification => "verification" | .error _ => "other"
+  r1' ++ "," ++ r2'
+
+/-- **`verify` / `apply` = model**: with two listed algorithms the outcome of the running code is the model's — in particular -/
+theorem gen_patchset_verify2_eq_model (c0 c1 r0 r1 : String) : Gen.patchset_verify2 c0 c1 r0 r1 = modelVerify2 c0 c1 r0 r1 := by
+  unfold Gen.patchset_verify2 modelVerify2 PatchSet.apply verify lookup
+  by_cases h0 : c0 = r0 <;> by_cases h1 : c1 = r1 <;> simp [h0, h1, Dict.get?] <;> decide
+
+/-- **verification succeeds if and only if the digest under every listed algorithm equals the recorded one** (and `apply` is refused
+exactly when verification is) — for what the code does now, all strings -/
+theorem gen_patchset_verify2_iff (c0 c1 r0 r1 : String) :
+    (Gen.patchset_verify2 c0 c1 r0 r1 = "ok,ok" ↔ (c0 = r0 ∧ c1 = r1)) ∧
+    (Gen.patchset_verify2 c0 c1 r0 r1 = "verification,verification" ↔ ¬ (c0 = r0 ∧ c1 = r1)) := by
+  unfold Gen.patchset_verify2
+  by_cases h0 : c0 = r0 <;> by_cases h1 : c1 = r1 <;> simp [h0, h1] <;> decide
+
 end Pyhf.Props.C17
